@@ -47,7 +47,31 @@ func oneOp(ts *pdus.Tables, r *fw.Rng) (kind, digest string) {
 	ctx := context.Background()
 	t := ts.Types[r.Intn(len(ts.Types))]
 	lt := t.Lib()
-	switch r.Intn(17) {
+	switch r.Intn(18) {
+	case 17:
+		// a body whose declared length exceeds its content: the encoder pads it (cmpp30 / smgp30 / sgip12 bodies)
+		keys := []string{"cmpp30.Submit/CMPP_SUBMIT", "cmpp30.Deliver/CMPP_DELIVER", "smgp30.Submit/Submit", "smgp30.Deliver/Deliver", "sgip12.Submit/SGIP_SUBMIT", "sgip12.Deliver/SGIP_DELIVER"}
+		pt := ts.ByKey[keys[r.Intn(len(keys))]]
+		v, _ := pdus.Gen(pt, r, -1, 0)
+		for _, f := range pt.Fields {
+			if f.Kind == "body" {
+				content := r.Bytes(r.Range(0, 40))
+				declared := len(content) + r.Pick(1, 31, 32, 33, 40, 64, 65, 100, 150, 200)
+				if lf := pt.Field(f.Len); lf.Kind == "u8" && declared > 255 {
+					declared = 255
+				}
+				v.F[f.Spec], v.F[f.Len] = content, uint64(declared)
+			}
+		}
+		b, err := pdus.Build(pt, v).IEncode()
+		if err == nil {
+			if m := pdus.MandatoryLen(pt, b); m >= 0 {
+				if tail, terr := tlvTail(b[m:]); terr == nil { // optional parameters are emitted in map order
+					return "encode-padded-body", fmt.Sprintf("%d|%s|%016x", len(b), digestBytes(b[:m]), fw.HashStr(tail))
+				}
+			}
+		}
+		return "encode-padded-body", fmt.Sprintf("%v|%s", err != nil, digestBytes(b))
 	case 15, 16:
 		// the library's lookup tables and name/priority switches (read-only after init)
 		code := uint8(r.U32())
